@@ -1754,7 +1754,7 @@ fn run_sequence(out: &mut Out, sv: &Servers, probe: &Probes, seqno: usize, reqs:
                 if let Some(what) = exp_mismatch(exp, f.h.ec, f.h.body_format, if f.h.ec == 0 { &f.body[..] } else { &[][..] }) {
                     out.oracle_fail(&format!("{}.{}.expect.{}.{}", pfx, name, rt.hk.token(), what.split(':').next().unwrap()), &format!("request id {} to {:?}: {}", r.h.id, String::from_utf8_lossy(&r.query), what), &all_ops);
                 }
-                if rt.hk == HK::Custom && !(run.ep.wrapped && *gated) && f.h.ec == 0 && r.body.first() != Some(&b'e') { want_q = OWN_QUERY; }
+                if rt.hk == HK::Custom && !(run.ep.wrapped && *gated) && matches!(exp, Exp::Ok { .. }) && r.body.first() != Some(&b'e') { want_q = OWN_QUERY; }
             } else {
                 // rejected at routing: the specified code
                 let want = if r.h.version != 1 { 1 } else if r.h.query_format != 1 || !utf8(&r.query) { 3 } else { 6 };
@@ -2399,6 +2399,31 @@ fn gen_run(r: &mut Rng, base_id: u64, thorough: bool) -> (Vec<ReqSpec>, u64) {
     (v, if n >= 255 && r.chance(1, 2) { 300 } else { 0 })
 }
 
+/// (p) Every error a callback can hand to the dispatch layer, once each, on one connection: the custom handler's
+/// `Err(RepeError)` of every variant (`Io` with every kind of the list), the gate middleware's, and every `ErrorCode` a
+/// closure can return.
+fn gen_error_sweep(base_id: u64) -> Vec<ReqSpec> {
+    let mk = |id: u64, path: &[u8], bf: u16, body: Vec<u8>| { let f = RawFrame::request(id, false, 1, path, bf, &body); ReqSpec { h: f.h, query: path.to_vec(), body, pings: 0 } };
+    let mut v = Vec::new();
+    let mut id = base_id;
+    let mut next = || { id += 1; id };
+    for l in ERR_LETTERS {
+        if *l == b'i' {
+            for k in 0..IO_KINDS.len() as u8 { v.push(mk(next(), b"/custom", 0, vec![b'!', b'i', k])); }
+        } else {
+            v.push(mk(next(), b"/custom", 0, vec![b'!', *l]));
+        }
+        let mut g = b"#mw-err".to_vec();
+        g.push(*l);
+        g.push(3 + (*l % 2)); // Io: WouldBlock / TimedOut
+        v.push(mk(next(), b"/json", 2, g));
+    }
+    for n in 0..11 {
+        v.push(mk(next(), if n % 2 == 0 { b"/json" } else { b"/json_b" }, 2, format!("{{\"fail\":{}}}", n).into_bytes()));
+    }
+    v
+}
+
 /// (h) frames whose sizes sit just below / at / just above the crate's internal sizes: the 8 KiB `BufReader` /
 /// `BufWriter` of both TCP servers (whole frames of 8191 / 8192 / 8193 bytes, so that later headers straddle the
 /// buffer end), 16 KiB, 64 KiB, queries of 47 / 48 / 49 bytes, struct paths of 15 / 16 / 17 / 21 segments
@@ -2603,6 +2628,9 @@ fn main() {
                 params.stall = stall;
                 out.count("dispatch.run_sequences");
                 v
+            } else if s % 64 == 9 {
+                out.count("dispatch.error_sweeps");
+                gen_error_sweep(base)
             } else if s % 8 == 4 {
                 out.count("dispatch.sized_sequences");
                 gen_sized(&mut rng, base, args.thorough())
